@@ -21,6 +21,11 @@ func (o *Optimizer) init() error {
 		return err
 	}
 	o.stmt = stmt
+	// Before constant folding can drop a call together with its operand
+	err = o.checkStatementFunctions()
+	if err != nil {
+		return err
+	}
 	switch vstmt := stmt.(type) {
 	case *SelectStmt:
 		o.optimizeSelectExpressions(vstmt)
@@ -248,10 +253,6 @@ func (o *Optimizer) checkStatementFunctions() error {
 
 func (o *Optimizer) buildPlan(s Storage) (FinalPlan, error) {
 	err := o.init()
-	if err != nil {
-		return nil, err
-	}
-	err = o.checkStatementFunctions()
 	if err != nil {
 		return nil, err
 	}
